@@ -263,6 +263,43 @@ theorem C15_generated_writeresult_never_panics (ext : Go.Ext) (g : Gen.Outfile.G
     ∃ r, Gen.Outfile.GroupSet.WriteResult ext g query final = Outcome.ok r :=
   GenOutfile.WriteResult_returns ext g query o ho final
 
+/-- **Whatever fails, what was done is a prefix of the model's operations.**  For every behaviour of the file system
+    (`ext.ioErr` decides for each operation, given the history, whether it fails): the translated `WriteResult` returns, and
+    the model operations among those it performed after `g.ops` (the `os.Remove` of the temporary file after a failed rename has
+    none) are a prefix of `writeResultOps fs r` — the sequence whose every prefix the crash theorems are about — and all of it
+    when no error is reported.  A change that goes on writing after a failed operation, reorders two operations on an error
+    path, or reports success after a failure breaks this theorem. -/
+theorem C15_generated_failures_leave_a_prefix (ext : Go.Ext) (fs : FS) (hstat : GenOutfile.StatAgrees ext fs)
+    (g : Gen.Outfile.GroupSet) (query : Gen.Outfile.Query) (o : Gen.Outfile.Outfile) (ho : query.Outfile = some o)
+    (final : Bool) (hrows : ∀ row ∈ ext.rowValues, row.length = query.Select.length) :
+    ∃ g' e pre, Gen.Outfile.GroupSet.WriteResult ext g query final = Outcome.ok (g', e) ∧ g'.ops = g.ops ++ pre ∧
+      pre.filterMap GenOutfile.toFOp <+: writeResultOps fs (GenOutfile.reqOf ext query o final) ∧
+      (e = none → pre.filterMap GenOutfile.toFOp = writeResultOps fs (GenOutfile.reqOf ext query o final)) :=
+  GenOutfile.WriteResult_any_model ext fs hstat g query o ho final hrows
+
+/-- **No half-written outfile under failing file operations and a crash, on the translated code.**  Replace mode, any
+    behaviour of `ext.ioErr`, the process killed after any number `k` of the operations the translated `WriteResult` got to
+    perform: the outfile path holds what it held before, or the complete new result (and then the .query file holds the query
+    text).  (The removal of the temporary file after a failed rename touches neither path and is not replayed.) -/
+theorem C15_generated_no_half_written_under_failures (ext : Go.Ext) (fs : FS) (hstat : GenOutfile.StatAgrees ext fs)
+    (query : Gen.Outfile.Query) (o : Gen.Outfile.Outfile) (ho : query.Outfile = some o) (final : Bool)
+    (hrows : ∀ row ∈ ext.rowValues, row.length = query.Select.length) (happ : o.AppendMode = false) (k : Nat) :
+    ∃ g' e, Gen.Outfile.GroupSet.WriteResult ext {} query final = Outcome.ok (g', e) ∧
+      let r := GenOutfile.reqOf ext query o final
+      let fs' := applyOps fs ((g'.ops.take k).filterMap GenOutfile.toFOp)
+      (fsGet fs' r.path = fsGet fs r.path ∨
+        (fsGet fs' r.path = some (completeResult r) ∧ fsGet fs' (r.path ++ QUERYEXT) = some r.rawQuery)) := by
+  obtain ⟨g', e, pre, hr, hops, hpre, _⟩ := GenOutfile.WriteResult_any_model ext fs hstat {} query o ho final hrows
+  refine ⟨g', e, hr, ?_⟩
+  have he : ({} : Gen.Outfile.GroupSet).ops = [] := rfl
+  rw [he, List.nil_append] at hops
+  have h1 : (pre.take k).filterMap GenOutfile.toFOp <+: writeResultOps fs (GenOutfile.reqOf ext query o final) :=
+    (List.IsPrefix.filterMap GenOutfile.toFOp (List.take_prefix k pre)).trans hpre
+  have h2 := List.prefix_iff_eq_take.1 h1
+  show _ ∨ _
+  rw [hops, h2]
+  exact C15_noappend fs (GenOutfile.reqOf ext query o final) _ happ
+
 /-- non-vacuity: the fourth operation (opening the temporary outfile) fails: the query file is complete, nothing else was
     touched, the error comes back -/
 example :
